@@ -31,6 +31,131 @@ func runC09(w *World, r *Report) {
 	ruleWidth(w, r, kc, kn)
 	ruleGrow(w, r)
 	ruleStackClass(w, r)
+	ruleStackMax(w, r)
+}
+
+// ruleStackMax: Expr.maxStackSize is a running maximum to which the stack
+// size of every program position contributes.
+func ruleStackMax(w *World, r *Report) {
+	const rule = "R-STACKMAX"
+	r.Rule(rule, "the value stored into Expr.maxStackSize is a running maximum that takes in the per-position stack size f[i] of every node i (an update that skips some positions under-sizes the stack Eval allocates)", 1)
+	fn := w.MustFn(r, rule, "calAndSetStackSize")
+	if fn == nil {
+		return
+	}
+	name := w.Name(fn)
+	var store *ssa.Store
+	EachInstr(fn, func(in ssa.Instruction) {
+		if st, ok := in.(*ssa.Store); ok {
+			if tn, fld, _, okf := fieldOf(st.Addr); okf && tn == "Expr" && fld == "maxStackSize" {
+				store = st
+			}
+		}
+	})
+	if store == nil {
+		r.Unresolved(rule, "no store of Expr.maxStackSize in calAndSetStackSize")
+		return
+	}
+	phi, ok := store.Val.(*ssa.Phi)
+	if !ok {
+		r.Fail(rule, w.InstrPos(store), name, describe(store.Addr)+" = "+describe(store.Val), "not a running maximum carried by a loop")
+		return
+	}
+	hdr := phi.Block()
+	// the update: maxInt16(phi, f[idx]) (or an equivalent comparison) executed on every iteration of a full range loop
+	good := false
+	why := "no update max(acc, f[i]) that executes for every node"
+	for _, e := range phi.Edges {
+		c, okc := e.(*ssa.Call)
+		if !okc || c.Call.StaticCallee() == nil || len(c.Call.Args) != 2 {
+			continue
+		}
+		callee := c.Call.StaticCallee()
+		if !isMaxFunc(callee) {
+			continue
+		}
+		var other ssa.Value
+		switch {
+		case c.Call.Args[0] == ssa.Value(phi):
+			other = c.Call.Args[1]
+		case c.Call.Args[1] == ssa.Value(phi):
+			other = c.Call.Args[0]
+		default:
+			continue
+		}
+		addr, okl := isLoad(other)
+		if !okl {
+			continue
+		}
+		ia, oki := addr.(*ssa.IndexAddr)
+		if !oki {
+			continue
+		}
+		// index: the range index over e.nodes (or 0..size)
+		full := false
+		if inc, okb := ia.Index.(*ssa.BinOp); okb && inc.Block() == hdr {
+			iff, okIf := hdr.Instrs[len(hdr.Instrs)-1].(*ssa.If)
+			if okIf {
+				if cmp, okc2 := iff.Cond.(*ssa.BinOp); okc2 && cmp.Op == token.LSS && cmp.X == ssa.Value(inc) {
+					if x, okx := lenArg(cmp.Y); okx {
+						if _, okh := rangeIndexHeader(inc, x); okh && lengthClass(cmp.Y, 0) == "nodes" {
+							full = true
+						}
+					}
+				}
+			}
+		}
+		if !full {
+			why = "the maximum is not taken over a full range of the program's nodes"
+			continue
+		}
+		if !loopVisitsAll(hdr, c.Block()) {
+			why = "the update of the maximum does not execute for every node"
+			continue
+		}
+		good = true
+	}
+	r.Check(good, rule, w.InstrPos(store), name, "e.maxStackSize = running max over f[i]", "max(acc, f[i]) executes for every node index of the program", why)
+}
+
+// isMaxFunc: a two-argument function returning the larger argument.
+func isMaxFunc(fn *ssa.Function) bool {
+	if len(fn.Params) != 2 || len(fn.Blocks) == 0 {
+		return false
+	}
+	a, b := ssa.Value(fn.Params[0]), ssa.Value(fn.Params[1])
+	for _, ret := range allReturns(fn) {
+		v := ret.Results[0]
+		if v != a && v != b {
+			return false
+		}
+		okFact := false
+		for _, f := range factsAt(ret.Block()) {
+			bo, ok := f.Cond.(*ssa.BinOp)
+			if !ok {
+				continue
+			}
+			// returns a under a > b (or not a <= b ...), b otherwise
+			gt := (bo.Op == token.GTR && f.Truth) || (bo.Op == token.LEQ && !f.Truth)
+			ge := (bo.Op == token.GEQ && f.Truth) || (bo.Op == token.LSS && !f.Truth)
+			le := (bo.Op == token.LEQ && f.Truth) || (bo.Op == token.GTR && !f.Truth)
+			lt := (bo.Op == token.LSS && f.Truth) || (bo.Op == token.GEQ && !f.Truth)
+			if bo.X == a && bo.Y == b {
+				if (v == a && (gt || ge)) || (v == b && (le || lt)) {
+					okFact = true
+				}
+			}
+			if bo.X == b && bo.Y == a {
+				if (v == b && (gt || ge)) || (v == a && (le || lt)) {
+					okFact = true
+				}
+			}
+		}
+		if !okFact {
+			return false
+		}
+	}
+	return true
 }
 
 // treeWriters: functions in whose VTA call closure astNode.children or
@@ -677,6 +802,8 @@ var c09Witnesses = []Witness{
 		{File: "engine.go", Old: "	case m <= 16:\n		os = make([]Value, 16)\n	default:\n		os = make([]Value, size)\n	}\n\n	var (\n		param  []Value", New: "	case m <= 16:\n		os = make([]Value, 8)\n	default:\n		os = make([]Value, size)\n	}\n\n	var (\n		param  []Value"}}},
 	{Name: "eval-small-class-threshold-raised", Rule: "R-STACKCLASS", Edits: []Edit{
 		{File: "engine.go", Old: "	switch {\n	case m <= 8:\n		os = make([]Value, 8)\n	case m <= 16:\n		os = make([]Value, 16)\n	default:\n		os = make([]Value, size)\n	}\n\n	var (\n		params []Value", New: "	switch {\n	case m <= 9:\n		os = make([]Value, 8)\n	case m <= 16:\n		os = make([]Value, 16)\n	default:\n		os = make([]Value, size)\n	}\n\n	var (\n		params []Value"}}},
+	{Name: "max-stack-counts-only-pushes", Rule: "R-STACKMAX", Edits: []Edit{
+		{File: "compiler.go", Old: "	for i, n := range e.nodes {\n		maxStackSize = maxInt16(maxStackSize, f[i])\n		n.osTop = f[i] - 1\n	}", New: "	for i, n := range e.nodes {\n		if n.childCnt == 0 && n.getNodeType() != operator {\n			maxStackSize = maxInt16(maxStackSize, f[i])\n		}\n		n.osTop = f[i] - 1\n	}"}}},
 	{Name: "benign-check-uses-ge", Benign: true, Edits: []Edit{
 		{File: "compiler.go", Old: "	if len(root.children) > math.MaxInt8 {", New: "	if len(root.children) >= math.MaxInt8+1 {"}}},
 	{Name: "benign-stack-classes-if-chain", Benign: true, Edits: []Edit{
